@@ -63,7 +63,7 @@ Events == { O1("a", Num(1)), O2("a", Str("y"), "b", Str("x")), O1("z", Null) }
 CtxKeys == {"", "k1"}
 
 Base(o, l) == [op |-> o, loc |-> l, id |-> "", rid |-> "", val |-> Null, inh |-> FALSE,
-               wk |-> "", rk |-> "", now |-> now, flag |-> FALSE, names |-> {}]
+               wk |-> "", rk |-> "", now |-> now, flag |-> FALSE, names |-> {}, hooked |-> FALSE]
 
 FreshId(l) == "gen" \o ToString(nops)
 
